@@ -270,3 +270,189 @@ class checker_init(Contract):
         if exc.cls is ValueError and len(vs) == 1:
             return {'refusal_follows_failed_self_signature': Not(vs[0][2])}
         return {}
+
+
+# ----------------------------------------------------------------------------- union_checker and lvs_validator
+from ndn.security.validator import digest_validator as dv          # noqa: E402
+from ndn.app_support.light_versec import validator as lv           # noqa: E402
+from contracts.assumed_aio import UserCoroutineFn                  # noqa: E402
+from pyvc.values import InterpFunction                             # noqa: E402
+
+ANSWERS = [True, False, None, 1, 0]
+
+
+def _truthy(v):
+    return v is True or v == 1 and v is not False
+
+
+@contract
+class union_checker(Contract):
+    fn = dv.union_checker
+    props = ('C14', 'C05')
+    doc = ('union_checker(c1, c2, c3)(name, sig) is True iff every checker answers truthy; checkers are asked in order with the '
+           'same (name, sig), each at most once, and none after the first refusal; the verdict is a bool')
+    raises = {}
+
+    def setup(self, cx):
+        cs = [UserCoroutineFn(f'checker{i}', ANSWERS) for i in range(3)]
+        cx.run.ghost['uc'] = cs
+        return dict(args=tuple(cs))
+
+    def post(c, cx, result, args):
+        it = cx.it
+        name, sig = Opaque('token', 'name'), Opaque('token', 'sig')
+        verdict = it.await_value(it.call(result, [name, sig], {}, None))
+        cs = cx.run.ghost['uc']
+        answers = [cx.run.ghost.get(f'{k.label}.returned', 'not asked') if k.calls else 'not asked' for k in cs]
+        asked = [len(k.calls) for k in cs]
+        first_refusal = next((i for i, a in enumerate(answers) if a == 'not asked' or not _truthy(a)), None)
+        all_ok = all(a != 'not asked' and _truthy(a) for a in answers)
+        out = {'verdict_is_conjunction': verdict is all_ok,
+               'each_checker_asked_at_most_once_in_order': all(n <= 1 for n in asked) and asked == sorted(asked, reverse=True),
+               'same_packet_for_every_checker': all(k.calls[0] == ((name, sig), {}) for k in cs if k.calls)}
+        if first_refusal is not None:
+            out['nobody_asked_after_first_refusal'] = all(n == 0 for n in asked[first_refusal + 1:])
+        return out
+
+
+class LvsChecker:
+    """the compiled schema as seen by lvs_validator: ghost booleans for its three queries"""
+
+    def __init__(self, run):
+        self.run = run
+        self.fns_ok = run.input_bool('user_fns_complete')
+        self.no_match = run.input_bool('anchor_matches_nothing')
+        self.covers = run.input_bool('anchor_matches_every_root')
+        self.checks = []
+        self.match_args = []
+
+    def getattr_(self, it, name, node):
+        if name == 'root_of_trust':
+            return _M(lambda it_: RootSet(self))
+        if name == 'validate_user_fns':
+            return _M(lambda it_: self.fns_ok)
+        if name == 'match':
+            def match(it_, nm):
+                self.match_args.append(nm)
+                return MatchIter(self)
+            return _M(match)
+        if name == 'check':
+            def check(it_, pkt, key):
+                b = it_.run.fresh_bool('schema_allows')
+                self.checks.append((pkt, key, b))
+                return b
+            return _M(check)
+        raise Unsupported(f'checker.{name}')
+
+
+class MatchIter:
+    """the matches of the anchor name: iteration yields ONE opaque token standing for all (rule names, bindings) rows"""
+
+    def __init__(self, ck):
+        self.ck = ck
+
+    def iterate(self, it, node):
+        return [MatchRows(self.ck)]
+
+
+class MatchRows:
+    def __init__(self, ck):
+        self.ck = ck
+
+    def getitem(self, it, idx, node):
+        if idx != 0:
+            raise Unsupported('only the rule-name column of a match is modelled')
+        return self
+
+
+class MatchList:
+    def __init__(self, ck):
+        self.ck = ck
+
+    def truth(self, it):
+        return Not(self.ck.no_match)
+
+
+class RootSet:
+    def __init__(self, ck):
+        self.ck = ck
+
+    def getattr_(self, it, name, node):
+        if name == 'issubset':
+            def f(it_, other):
+                if not isinstance(other, MatchList):
+                    raise Unsupported('issubset of something else than the anchor matches')
+                return self.ck.covers
+            return _M(f)
+        raise Unsupported(f'set.{name}')
+
+
+def _install2():
+    from pyvc import models
+
+    def m_sum(it, args, kwargs, node):
+        a = args[0]
+        if isinstance(a, list) and len(a) == 1 and isinstance(a[0], MatchRows) and kwargs.get('start') == []:
+            return MatchList(a[0].ck)
+        if isinstance(a, list) and all(isinstance(x, int) and not isinstance(x, bool) for x in a) and not kwargs and len(args) == 1:
+            return sum(a)
+        raise Unsupported('sum() of symbolic values')
+    models.BUILTIN_MODELS[sum] = m_sum
+
+
+_install2()
+
+
+@contract
+class lvs_validator(Contract):
+    fn = lv.lvs_validator
+    props = ('C14',)
+    doc = ('lvs_validator(checker, app, anchor[, storage]) is built only if every user function is present, the anchor name matches '
+           'some rule and the matched rules cover every root of trust, and the anchor is properly self-signed; the validator it '
+           'returns asks the schema check (key locator present and checker.check(packet name, key name)) and then the cascade, '
+           'and the cascade validates fetched certificates with this same validator (next_level), so every link of the chain is '
+           'checked against the schema')
+    raises = {ValueError: lambda cx, **p: True, TypeError: lambda cx, **p: True,
+              **{e: (lambda cx, **p: True) for e in (__import__('ndn.encoding', fromlist=['DecodeError']).DecodeError,
+                                                       IndexError, __import__('struct').error)}}
+
+    def setup(self, cx):
+        run = cx.run
+        ck = LvsChecker(run)
+        run.ghost['lv.ck'] = ck
+        return dict(checker=ck, app=Opaque('app', 'app'), trust_anchor=run.input_buf('anchor', 'bytes'), storage=None)
+
+    def xpost(c, cx, exc, checker, app, trust_anchor, storage):
+        return {}
+
+    def post(c, cx, result, checker, app, trust_anchor, storage):
+        it, run = cx.it, cx.run
+        vs = run.ghost.get('verify_sig_calls', [])
+        out = {'built_only_for_a_sane_schema_and_anchor': And(checker.fns_ok, Not(checker.no_match), checker.covers),
+               'anchor_self_signature_checked': len(vs) == 1 and vs[0][2]}
+        ok = isinstance(result, InterpFunction) and result.qualname.endswith('union_checker.<locals>.wrapper')
+        out['returns_a_union_checker'] = ok
+        if not ok:
+            return out
+        parts = result.frame.lookup('args')
+        shape = isinstance(parts, tuple) and len(parts) == 2 and isinstance(parts[0], InterpFunction) and \
+            parts[0].qualname.endswith('validate_name') and isinstance(parts[1], SymObj) and parts[1].cls is cv.CascadeChecker
+        out['union_of_schema_check_and_cascade'] = shape
+        if not shape:
+            return out
+        out['cascade_validates_certificates_with_the_union'] = parts[1].d.get('next_level') is result
+        out['cascade_anchored_at_this_anchor'] = parts[1].d.get('app') is app
+        # the schema half: refuses a packet without key locator, otherwise the verdict is checker.check(name, key name)
+        lk = run.choose([('no signature info', True), ('no key locator', True), ('locator without name', True), ('locator', True)], 'locator')
+        cert_name = NameRef(run, 'cert_name') if lk == 'locator' else None
+        si = None if lk == 'no signature info' else SymObj(object, dict(
+            key_locator=None if lk == 'no key locator' else SymObj(object, dict(name=cert_name))))
+        pkt, sig = Opaque('token', 'packet name'), SymObj(object, dict(signature_info=si))
+        n0 = len(checker.checks)
+        verdict = it.await_value(it.call(parts[0], [pkt, sig], {}, None))
+        new = checker.checks[n0:]
+        if lk != 'locator':
+            out['schema_half_refuses_without_key_locator'] = verdict is False and new == []
+        else:
+            out['schema_half_is_the_signing_check'] = len(new) == 1 and new[0][0] is pkt and new[0][1] is cert_name and verdict is new[0][2]
+        return out
